@@ -36,7 +36,7 @@ CLAIMS = {
          "The DeleteSubscription / DeleteTopic handlers (async, whole bodies, B6) are under contract: OK means the resource the name denotes was asked to delete itself and answered OK. NOT covered: order of effects across the two actors, liveness of the Weak<Topic>, that the Weak<Topic> is dead exactly when the topic is deleted (the mapping itself is under contract in B6: live topic -> its name, dead -> the deleted marker), re-creation not re-attaching (call-graph fact)."),
  "C13": ("proof with trusted seams",
          "Proved: Paging::new normalises the size (0 -> 20, > 1000 -> 1000), next offset = offset + page length and none for an empty page, negative size is INVALID_ARGUMENT, an issued token decodes to its offset, anything else is INVALID_ARGUMENT or some offset; walk lemma (unbounded list length): following offsets from the first page yields the list exactly once in order with pages <= size, and a hostile offset yields a valid (possibly empty) page.",
-         "Assumed contracts (listed in trusted_base): PageToken::encode/try_decode (base64 + to_ne_bytes; Verus cannot specify const-generic array lengths; a complete Kani harness ran out of memory at 30 GB, so the codec is swept by the bounded stand-in `tokens` on the mounted source file), <[T]>::sort_unstable. The sort + skip/take/collect tails of list_topics and list_subscriptions_in_project are under contract (window == page_items); the ListTopicSubscriptions handler (async, whole body, B2) is under contract (effective size and token offset passed on, names in order, next_page_token exactly when the topic reports a further offset); the filter/collect heads of the list bodies and the window of TopicActor::list_subscriptions use the `cloned` adapter (no vstd spec) and are covered by the bounded stand-ins only; creation order = order of internal ids (C10)."),
+         "Assumed contracts (listed in trusted_base): PageToken::encode/try_decode (base64 + to_ne_bytes; Verus cannot specify const-generic array lengths; a complete Kani harness ran out of memory at 30 GB, so the codec is swept by the bounded stand-in `tokens` on the mounted source file), <[T]>::sort_unstable. The sort + skip/take/collect tails of list_topics and list_subscriptions_in_project are under contract (window == page_items); the ListTopics and ListTopicSubscriptions handlers (async, whole bodies, B2) are under contract (effective size and token offset passed on, names in order, next_page_token exactly when the topic reports a further offset); the filter/collect heads of the list bodies and the window of TopicActor::list_subscriptions use the `cloned` adapter (no vstd spec) and are covered by the bounded stand-ins only; creation order = order of internal ids (C10)."),
  "C15": ("proof for the size bound (scoped for emptiness)",
          "Proved: the batch of pull_messages has at most max_count messages (at most one when the 16-bit limit is 0), never more than the backlog, and is empty only when the backlog is (contract clause `count_ok`; the exact count incl. the `usize as u16` truncation of the backlog length is a loop-level obligation); conversion lemma over all i32 m >= 1: such a batch never exceeds m even where `m as u16` wraps; streaming limit: try_into::<u16> rejects out-of-range values with INVALID_ARGUMENT; pull returns empty iff the backlog is empty.",
          "NOT covered by contracts: the unary wait loop / 5-minute timer (select!) and the wake-up of further waiting consumers when a full batch leaves messages behind (Notify; gRPC scenarios `pull_limits`, `two_waiters`, `stream_limits` stand in); the StreamingPull loop body (try_stream! macro). The unary path from the request to the subscription handle is under contract (B5): the helper pull_messages (async fn, verified as such) returns one ReceivedMessage per message handed out, and the `request.max_messages as u16` call site of the pull handler (lifted region) yields at most max_messages messages for every i32 >= 1; the handle method itself is a trusted stand-in carrying the actor's proved count clause (A-GLUE)."),
